@@ -73,6 +73,7 @@ def run(ck):
     require(ck, "G", "map_indexes:DuplicateLeafIndex", m, "reject iff the position list contains duplicates (map size differs from list size)")
     m = [g for g in errs("InvalidProof") if g.fn is gr and match_cmp(g, ("!=",), has_callee("normalize_indexes"), has_field("BatchMerkleProof", "nodes"))]
     require(ck, "G", "get_root:node-vector-count", m, "reject iff the number of node vectors differs from the number of normalised positions")
+    opening_fully_used(ck, prog, mg, "G")
     m = [g for g in gs if g.kind == "call" and (g.callee or "").endswith("merkle::map_indexes")]
     require(ck, "G", "get_root:map_indexes-propagated", m, "position validation errors are propagated")
     m = [g for g in gs if g.kind == "call" and (g.callee or "").endswith("Option::ok_or")]
@@ -92,6 +93,35 @@ def run(ck):
     e4(ck, prog)
     order(ck, prog)
     leaf_order(ck, prog)
+
+
+def opening_fully_used(ck, prog, mg=None, rule="G"):
+    """every part of a batch opening is used: one leaf per position, and every node of every node vector consumed — a surplus leaf or node
+    is bound to nothing, yet it is decoded content of the proof (and surplus rows reach an assertion of the DEEP composer). Shared by C10
+    (guard inventory), C03 (integrity: no unbound decoded content) and C06 (no panic on proof bytes)."""
+    mg = mg or MustGuards(prog)
+    gr = prog.fn(BMP + "::get_root")
+    gs = mg.of(gr)
+
+    def errs(v):
+        return [g for g in gs if g.kind == "switch" and v in g.errs]
+    # every part of the opening is used: one leaf per position, and every node of every node vector consumed — a surplus leaf or node
+    # is bound to nothing, yet it is decoded content of the proof (and surplus rows reach an assertion of the DEEP composer)
+    m = [g for g in errs("InvalidProof") if g.fn is gr and match_cmp(g, ("!=",), has_param("indexes"), has_field("BatchMerkleProof", "leaves"))]
+    require(ck, rule, "get_root:one-leaf-per-position", m, "reject iff the number of leaves in the opening differs from the number of positions")
+    m = []
+    for g in errs("InvalidProof"):
+        if g.fn is not gr or g.cond.kind != "call" or not (callee_name(g.cond.call) or "").endswith(("Iterator::any", "Iterator::all")):
+            continue
+        w = flow(gr).walk(ops=g.cond.call["args"][:1], at=g.cond.node)
+        if ("f", BMP, "nodes") in w or any(n[0] == "f" and n[2] == "nodes" for n in w):
+            m.append(g)
+    if not m:
+        # the explicit-loop form: a per-iteration decision comparing a consumed count with the length of a node vector
+        m = [g for g in errs("InvalidProof") if g.fn is gr and match_cmp(g, ("!=", "<", ">"), anything, has_field("BatchMerkleProof", "nodes")) and
+             not match_cmp(g, ("!=",), has_callee("normalize_indexes"), has_field("BatchMerkleProof", "nodes"))]
+    require(ck, rule, "get_root:all-nodes-used", m, "reject iff some node vector of the opening was not consumed to its end",
+            strength=("always", "per-iteration"))
 
 
 def merkle_scopes(prog, an):
